@@ -397,6 +397,27 @@ fn execute_on<T: ExactSizeIterator<Item = ChessMove> + Clone>(ctx: &Ctx, script:
     if it.next().is_some() {
         check!(Some(Failure { what: format!("iterator-does-not-end:{after}"), step, detail: "more moves than the position has".into() }));
     }
+    // final widening: "iterating under successive masks that together cover the board yields
+    // every remaining legal move exactly once" - whatever is still in the model must come out now
+    if model.mask != !0 {
+        step += 1;
+        if promo_run_open(&model) {
+            info.mutator_inside_promotion_run = true;
+        }
+        (ops.set_mask)(&mut it, BitBoard::from_u64(!0));
+        model.mask = !0;
+        after = "final-widening".into();
+        check!(observers(&ops, &it, &model, step, &after));
+        for _ in 0..cap {
+            step += 1;
+            let (f, yielded) = do_next(&mut it, &mut model, step, &after);
+            check!(f);
+            check!(observers(&ops, &it, &model, step, &after));
+            if !yielded {
+                break;
+            }
+        }
+    }
     // `count` agrees with len on a clone taken at the end (both 0) and originals are unaffected
     for (mut orig, mut m) in originals {
         step += 1;
@@ -603,7 +624,7 @@ pub fn run_c10(args: &Args) -> i32 {
             "traces_validated_against_impl": total_runs,
             "evaluations": total_runs,
             "distinct_nontrivial": nontrivial_runs,
-            "rule": "for every catalogue position (both colours): each of 9 generation entry points (legals, legals_masked(m)) with 0 or 1 mutator at every point, and legals() with every ordered pair of mutators at every pair of points (thorough: every triple on positions with <= 12 moves); 32 mutator instances (set_mask x 11 masks, remove x 11 masks, remove_move x 9 move choices, clone-and-continue); every run is driven to exhaustion on the real MoveGen and len / is_empty / size_hint / ExactSizeIterator::len are compared with the set model after every step. states = iterator steps executed (each step is checked); non-trivial = runs containing at least one mutator.",
+            "rule": "for every catalogue position (both colours): each of 9 generation entry points (legals, legals_masked(m)) with 0 or 1 mutator at every point, and legals() with every ordered pair of mutators at every pair of points (thorough: every triple on positions with <= 12 moves); every run ends with a final set_mask(all) + drain when the mask is not already full; 32 mutator instances (set_mask x 11 masks, remove x 11 masks, remove_move x 9 move choices, clone-and-continue); every run is driven to exhaustion on the real MoveGen and len / is_empty / size_hint / ExactSizeIterator::len are compared with the set model after every step. states = iterator steps executed (each step is checked); non-trivial = runs containing at least one mutator.",
             "positions": positions.len(),
             "mutator_instances": all_mutators().len(),
             "per_position": per_pos,
